@@ -87,7 +87,8 @@ def float_default(t: int, b: bool, i: int, f: int, s: int) -> bool:
     post: _
     """
     v = _json_value(t, b, i, f, s)
-    return _check(FloatProperty, v, lambda x: isinstance(x, (int, float)) and not isinstance(x, bool), lambda got, x: type(got) is float and got == _num(x))
+    # NaN / Infinity are not JSON numbers: they are not well-typed number defaults and must be rejected
+    return _check(FloatProperty, v, lambda x: isinstance(x, (int, float)) and not isinstance(x, bool) and math.isfinite(x), lambda got, x: type(got) is float and got == _num(x))
 
 
 def float_default__excl(t: int, b: bool, i: int, f: int, s: int) -> bool:
@@ -98,10 +99,10 @@ def float_default__excl(t: int, b: bool, i: int, f: int, s: int) -> bool:
     v = _json_value(t, b, i, f, s)
     try:
         if isinstance(v, (str, float)) and not isinstance(v, bool) and not math.isfinite(float(v)):
-            return True  # known finding C13-F1: non-finite number defaults are emitted as the bare names nan / inf
+            return True  # (kept from before fix bb053aa: non-finite values are handled by float_default itself now)
     except ValueError:
         pass
-    return _check(FloatProperty, v, lambda x: isinstance(x, (int, float)) and not isinstance(x, bool), lambda got, x: type(got) is float and got == _num(x))
+    return _check(FloatProperty, v, lambda x: isinstance(x, (int, float)) and not isinstance(x, bool) and math.isfinite(x), lambda got, x: type(got) is float and got == _num(x))
 
 
 def bool_default(t: int, b: bool, i: int, f: int, s: int) -> bool:
@@ -158,3 +159,28 @@ def none_default(t: int, b: bool, i: int, f: int, s: int) -> bool:
     """
     v = _json_value(t, b, i, f, s)
     return _check(NoneProperty, v, lambda x: False, lambda got, x: got is None)
+
+
+from openapi_python_client.parser.properties import ConstProperty  # noqa: E402
+from openapi_python_client.utils import PythonIdentifier  # noqa: E402
+
+_PY = PythonIdentifier("x", "")
+
+
+def const_default(ct: int, cb: bool, ci: int, cf: int, cs: int, t: int, b: bool, i: int, f: int, s: int) -> bool:
+    """
+    A default on a const property is accepted only if it *is* the constant (same JSON type, same value); anything else
+    — including values Python merely treats as equal, such as true for 1 or 1.0 for 1 — is a diagnostic.
+    pre: 1 <= ct <= 4 and 0 <= ci < 4 and 1 <= cf < 3 and 0 <= cs < 24
+    pre: 0 <= t <= 6 and 0 <= i < 4 and 0 <= f < 4 and 0 <= s < 24
+    post: _
+    """
+    const = _json_value(ct, cb, ci, cf, cs)
+    default = _json_value(t, b, i, f, s)
+    r = ConstProperty.build(const=const, default=default, name="x", python_name=_PY, required=True, description=None)
+    same = default is not None and type(default) is type(const) and default == const
+    if default is None:
+        return isinstance(r, ConstProperty) and r.default is None
+    if same:
+        return isinstance(r, ConstProperty) and r.default is not None and _denotes(r.default.python_code) == const
+    return isinstance(r, PropertyError)
